@@ -193,7 +193,7 @@ func c05NodeInfos(thorough bool) []*NodeInfo {
 	}
 	peerVars := [][]PeerConnectionInfo{nil, {peer(0, "", 0, false), peer(1, "h2", -1, true)}, fifty}
 	if thorough {
-		peerVars = append(peerVars, []PeerConnectionInfo{peer(0, c05Str(255), 1<<63 - 1, true)})
+		peerVars = append(peerVars, []PeerConnectionInfo{peer(0, c05Str(255), 1<<63-1, true)})
 	}
 	twenty := make([]ForwardListenerInfo, MaxForwardListenersInNodeInfo)
 	for i := range twenty {
@@ -320,23 +320,38 @@ func c05QueuedStates(thorough bool) []any {
 	return out
 }
 
+// c05QueuedSeeds: each-choice selection of the QueuedState corpus for mutation -- every sleep
+// variant (<= 3 SeenBy) alone and followed by an unsigned wake, every wake variant alone, every
+// single list part without and with both commands, and everything together.
 func c05QueuedSeeds() []any {
-	all := c05QueuedStates(false)
 	var out []any
-	for _, m := range all {
+	for _, m := range c05QueuedStates(false) {
 		q := m.(*QueuedState)
-		small := len(q.Routes) <= 1 && len(q.Withdraws) <= 1 && len(q.NodeInfos) <= 1
-		if q.SleepCmd != nil && len(q.SleepCmd.SeenBy) > 3 {
-			small = false
-		}
-		// each-choice: at most one list part populated together with the command parts
 		lists := 0
+		big := false
 		for _, n := range []int{len(q.Routes), len(q.Withdraws), len(q.NodeInfos)} {
 			if n > 0 {
 				lists++
 			}
+			if n > 1 {
+				big = true
+			}
 		}
-		if small && lists <= 1 {
+		sl, wk := q.SleepCmd, q.WakeCmd
+		plainWake := wk != nil && wk.IsZeroSignature() && len(wk.SeenBy) == 0
+		plainSleep := sl != nil && sl.IsZeroSignature() && len(sl.SeenBy) == 0
+		keep := false
+		switch {
+		case lists == 0 && sl != nil && len(sl.SeenBy) <= 3 && (wk == nil || plainWake):
+			keep = true
+		case lists == 0 && sl == nil:
+			keep = true // every wake variant alone, and the empty state
+		case lists == 1 && !big && ((sl == nil && wk == nil) || (plainSleep && plainWake)):
+			keep = true
+		case lists == 3 && !big && plainSleep && plainWake:
+			keep = true
+		}
+		if keep {
 			out = append(out, m)
 		}
 	}
